@@ -151,6 +151,9 @@ def gen_font(case):
                 fill = ("currentColor" if idx is None else f"var(--color{idx}, currentColor)") if k == "fg" else css(col, idx)
                 exp.append(("solid", (k, col, idx, op)))
             body += f'<rect x="{x}" y="{y}" width="30" height="20" fill="{fill}"' + (f' opacity="{op}"' if op != 1 else "") + "/>"
+        if version == 1 and body.count("<rect") >= 2 and common.rng(ID, "group", case["seed"], case["i"], g).random() < 0.3:
+            # group opacity: COLRv1 writes it as a composite over a translucent black backdrop, a colour no source names
+            body = f'<g opacity="0.5">{body}</g>'
         glyphs.append((f'<svg xmlns="http://www.w3.org/2000/svg" viewBox="0 0 100 100"><defs>{defs}</defs>{body}</svg>', exp))
     if conflict and idx_of:
         col, idx = next(iter(idx_of.items()))
